@@ -9,6 +9,14 @@ type PropSpec struct {
 }
 
 var properties = map[string]PropSpec{
+	"C17": {
+		Level: "other",
+		Explanation: "wip",
+		Run: func(c *Ctx) {
+			c.ruleInv()
+			c.ruleNil("R-NIL", nil)
+		},
+	},
 	"C11": {
 		Level: "proof",
 		Explanation: "Effect analysis over every exported query method of Stack and Condition (the names in the statement, every Is.../Can... method and the plain getters; enumerated from go/types on each run): the transitive write set over all in-package callees must be empty on every non-fresh object - no store, append into shared backing, map update, global write or lock call (R-PURE). Returned slices/maps must be rooted at an allocation made during the call (R-FRESH; Auxiliary/Logger exempt by the statement). No source of nondeterminism (math/rand, time.Now, order-sensitive map iteration) is reachable (R-NONDET). With an empty write set, concurrent queries cannot race: a data race needs a write.",
